@@ -440,6 +440,8 @@ def run(ctx) -> None:
                 ctx.unverified("MONTHBRANCH.agree", "rs:precise_diff", str(e), "rust/src/python/helpers.rs")
     _backend_switch(ctx)
     _interval_props(ctx)
+    from ..rules import addduration as AD
+    AD.month_clamp_order(ctx)    # a + (b - a) == b relies on the month shift / clamp of add_duration
     ctx.expect_min("BORROW", 6)
     ctx.expect_min("SIGN.outputs", 9)
     ctx.expect_min("INTERVAL", 10)
